@@ -335,7 +335,7 @@ func errorTemplates(pkgs map[string]*pkgInfo) {
 // C07 pins the list: the values reachable from a published configuration (tree, sets) are written only by these
 // construction-time methods; a method that starts to write (a memo in Elems, say) changes the fact.
 func receiverMutators(pkgs map[string]*pkgInfo) {
-	aliases := map[string]bool{} // locals of the method under inspection that point into the receiver (n := &t.root; child := &n.children[i])
+	aliases := map[string]bool{}                           // locals of the method under inspection that point into the receiver (n := &t.root; child := &n.children[i])
 	rooted := func(e ast.Expr, recv string) (bool, bool) { // (rooted at recv, more than the bare identifier)
 		depth := 0
 		for {
